@@ -54,6 +54,10 @@ def r1_transparent(R) -> None:
         if spec['returns']:
             rets = f.returns()
             ok = len(rets) == 1 and rets[0].ast.value is c
+            if not ok and len(rets) == 1 and isinstance(rets[0].ast.value, ast.Name):
+                # `x = super().m(...); return x`: the local's only definition is the base call
+                vals = f.lf.values_reaching(rets[0].id, rets[0].ast.value.id)
+                ok = len(vals) == 1 and vals[0][1] is c and rets[0].ast.value.id not in f.mutated_in_place()
             R.check(ok, q, 'returns-base', 'the base result is returned as is', f'solve_t does not `return super().{m}(...)`', where=f.fi.where)
         else:
             rets = [r for r in f.returns() if r.ast.value is not None]
@@ -106,7 +110,8 @@ def r3_confinement(R) -> None:
     ok = len(res) == 1 and is_call(res[0].ast.value, 'np.array')
     R.check(ok, q, 'snapshot-fresh', 'the snapshot is a new array of the values at t', '`results` is not a fresh np.array(...)', where=f.fi.where)
     if ok:
-        lc = res[0].ast.value.args[0]
+        from fsa.gated import canon as _canon
+        lc = _canon(f.expand(res[0].id, res[0].ast.value.args[0], comps=True), fuse=True)
         ok2 = isinstance(lc, ast.ListComp) and text(lc.generators[0].iter) == 'names' and 'self[' in text(lc.elt) and '[t]' in text(lc.elt)
         R.check(ok2, q, 'snapshot-values:' + text(lc)[:50], 'the snapshot holds the traced variables at t, in order', f'`{text(lc)[:60]}`', where=f.where(res[0]))
     # Trace methods write only their own attributes
@@ -147,8 +152,11 @@ def r5_trace_names(R) -> None:
     for n in f.cfg.nodes:
         if n.kind == 'stmt' and n.ast is not None:
             for x in ast.walk(n.ast):
-                if isinstance(x, (ast.ListComp, ast.GeneratorExp)) and any(isinstance(y, ast.Subscript) and text(y.value).startswith('self[') for y in ast.walk(x.elt)):
-                    comps.append((n, x))
+                if isinstance(x, (ast.ListComp, ast.GeneratorExp)):
+                    # a comprehension over a local generator of the arrays reads as the comprehension over the names
+                    xf = canon(f.expand(n.id, x, comps=True), fuse=True)
+                    if isinstance(xf, (ast.ListComp, ast.GeneratorExp)) and any(isinstance(y, ast.Subscript) and text(y.value).startswith('self[') for y in ast.walk(xf.elt)):
+                        comps.append((n, xf))
     if not comps:
         raise Unsupported(f'{q}: the snapshot comprehension over the traced names was not found')
     n, lc = comps[0]
